@@ -88,9 +88,13 @@ type model struct {
 	conns map[string]bool // registered connections
 	ever  map[string]bool // providers registered at some point of the history
 	local bool
+	// bd: revision its reflection serves now, revision in effect in the mux
+	// (0: not registered), and whether revision 2 was ever in effect
+	bdRev, bdReg int
+	bdEver2      bool
 }
 
-func newModel() *model { return &model{conns: map[string]bool{}, ever: map[string]bool{}} }
+func newModel() *model { return &model{conns: map[string]bool{}, ever: map[string]bool{}, bdRev: 1} }
 
 func (m *model) live(svc string) map[string]bool {
 	out := map[string]bool{}
@@ -107,13 +111,16 @@ func (m *model) live(svc string) map[string]bool {
 
 func (m *model) sig() string {
 	var parts []string
-	for _, s := range []string{"A", "B", "C"} {
+	for _, s := range []string{"A", "B", "C", "D"} {
 		var t []string
 		for k := range m.live(s) {
 			t = append(t, k)
 		}
 		sort.Strings(t)
 		parts = append(parts, s+"{"+strings.Join(t, ",")+"}")
+	}
+	if m.conns["bd"] {
+		parts = append(parts, fmt.Sprintf("rev%d", m.bdReg))
 	}
 	return strings.Join(parts, "")
 }
@@ -153,6 +160,7 @@ type reqSpec struct {
 
 var methods = []struct{ full, svc string }{
 	{"/vf.rs.A/Get", "A"}, {"/vf.rs.A/Put", "A"}, {"/vf.rs.B/Get", "B"}, {"/vf.rs.C/Get", "C"},
+	{"/vf.rs.D1/Get", "D"}, {"/vf.rs.D2/Get", "D"},
 }
 
 // httpSpecs lists the HTTP requests that are requests for a method, at least
@@ -179,6 +187,15 @@ var httpSpecs = map[string][]reqSpec{
 		{Verb: "POST", Path: "/vf.rs.B/Get", Body: `{"a":"k3"}`, Binding: "implicit"},
 		{Verb: "GET", Path: "/rs/b2/k4/5", Binding: "var"},
 		{Verb: "GET", Path: "/cfg/b/k5", Binding: "config"},
+	},
+	"/vf.rs.D1/Get": {
+		{Verb: "GET", Path: "/rs/d1/k1", Binding: "var"},
+		{Verb: "POST", Path: "/vf.rs.D1/Get", Body: `{"a":"k2"}`, Binding: "implicit"},
+		{Verb: "GET", Path: "/rs/d1v2/k3", Binding: "var-rev2", OnlyFrom: "bd-rev2"},
+	},
+	"/vf.rs.D2/Get": {
+		{Verb: "GET", Path: "/rs/d2/k1", Binding: "var"},
+		{Verb: "POST", Path: "/vf.rs.D2/Get", Body: `{"a":"k2"}`, Binding: "implicit"},
 	},
 	"/vf.rs.C/Get": {
 		{Verb: "GET", Path: "/rs/c/k1", Binding: "var"},
@@ -292,12 +309,24 @@ func (w *Worker) apply(mux *larking.Mux, op Op) (regErr error, dropped bool, pi 
 		case "RegLocal":
 			regErr = larking.VerifRegisterService(mux, vschema.ServiceDesc(w.env.SD["A"], tagged{"local"}), struct{}{})
 		case "RegConn":
-			regErr = mux.RegisterConn(ctx, w.env.conn(op.B))
+			regErr = mux.RegisterConn(ctx, w.conn(op.B))
 		case "DropConn":
-			dropped = mux.DropConn(ctx, w.env.conn(op.B))
+			dropped = mux.DropConn(ctx, w.conn(op.B))
+		case "Rev":
+			// the back-end is redeployed: its reflection serves another
+			// revision from now on; the mux is not told
+			rev := map[string]int{"1": 1, "2": 2, "bad": 3}[op.B]
+			w.bd.SetFiles(w.fdD[rev])
 		}
 	})
 	return
+}
+
+func (w *Worker) conn(name string) *grpc.ClientConn {
+	if name == "bd" {
+		return w.bd.CC
+	}
+	return w.env.conn(name)
 }
 
 // Run applies the history to a fresh Mux and checks every step. draws is the
@@ -319,6 +348,7 @@ func (w *Worker) Run(h History, draws int) *Outcome {
 	}
 	w.cur.Store(mux)
 	w.takePanics()
+	w.bd.SetFiles(w.fdD[1])
 	m := newModel()
 	for step, op := range h {
 		regErr, dropped, pi := w.apply(mux, op)
@@ -327,8 +357,18 @@ func (w *Worker) Run(h History, draws int) *Outcome {
 			// the model treats a panicking operation as not having happened
 		} else {
 			switch op.K {
+			case "Rev":
+				m.bdRev = map[string]int{"1": 1, "2": 2, "bad": 3}[op.B]
 			case "RegLocal", "RegConn":
 				prov := op.B
+				if prov == "bd" && m.bdRev == 3 && op.K == "RegConn" {
+					// the revision on offer is invalid: refused whether the
+					// connection is new or a refresh, and nothing changes
+					if regErr == nil {
+						fail(step, "RegConn-accepted-invalid-revision", "%s returned nil although the back-end's current revision binds an unknown field", op)
+					}
+					break
+				}
 				if op.K == "RegLocal" {
 					prov = "local"
 				}
@@ -345,6 +385,12 @@ func (w *Worker) Run(h History, draws int) *Outcome {
 				default:
 					m.ever[prov] = true
 					m.ever[tagOf(prov)] = true
+					if prov == "bd" {
+						m.bdReg = m.bdRev
+						if m.bdRev == 2 {
+							m.bdEver2 = true
+						}
+					}
 					if prov == "local" {
 						m.local = true
 					} else {
@@ -357,6 +403,9 @@ func (w *Worker) Run(h History, draws int) *Outcome {
 					fail(step, fmt.Sprintf("DropConn-returned-%v", dropped), "%s returned %v, the model has the connection registered=%v", op, dropped, want)
 				}
 				delete(m.conns, op.B)
+				if op.B == "bd" {
+					m.bdReg = 0
+				}
 			}
 		}
 		out.States = append(out.States, op.K+"->"+m.sig())
@@ -419,10 +468,14 @@ func (w *Worker) Run(h History, draws int) *Outcome {
 					// older providers remain (served by a live provider or
 					// unrouted are both explained)
 					a := w.doHTTP(s)
+					onlyLive, onlyEver := m.conns[s.OnlyFrom], m.ever[s.OnlyFrom]
+					if s.OnlyFrom == "bd-rev2" {
+						onlyLive, onlyEver = m.conns["bd"] && m.bdReg == 2, m.bdEver2
+					}
 					switch {
-					case m.conns[s.OnlyFrom]:
+					case onlyLive:
 						check("http", s.Binding, a)
-					case !m.ever[s.OnlyFrom]:
+					case !onlyEver:
 						out.NReq++
 						if ps := w.takePanics(); len(ps) > 0 {
 							fail(step, "http:"+ps[0].Key(), "request for %s panicked inside larking: %s", s.Path, ps[0].Value)
